@@ -31,6 +31,8 @@ ASSUMPTIONS = [
     "the authenticity clause is judged only with authic=True: a delivered memo must equal a memo its claimed signer signed, or at "
     "least consist only of gram bodies that this signer signed (a signer may forge its own memos; it may not add to another's)",
     "memo ids are deterministic; the unknown signer uses a transferable vid (code 'D') that is absent from the receiver's keep",
+    "one transferable signer has rotated its key: its vid embeds the first key, the receiver's keep holds the current one; grams "
+    "signed with the superseded key do not verify for that signer",
 ]
 
 CODES = list(memoing.MemoDex)
@@ -93,8 +95,9 @@ def forge(g, curt, m, tx):
     mid = (urlsafe_b64encode(bytes(g[6:24])) if curt else bytes(g[8:32]))
     if len(mid) != 24:
         return None
-    signer = memogen.SIGNERS[m[4] % 3] if m[4] < 3 else memogen.STRANGER
+    signer = memogen.signer_at(m[4])
     vid = signer[0]
+    tx = memogen.sender(memoing.MemoDex.GramAuthZero, False, 65535, signer=m[4])       # signs with that party's own key
     gnum = helping.intToB64b(m[2] % (64 ** 4), l=4)
     head = code.encode() + gnum + mid + (vid.encode() if vz else b"")
     if curt:
@@ -157,15 +160,14 @@ def run_case(case):
         curt = ms["curt"]
         base = memogen.min_size(code, curt)
         size = 65535 if ms["extra"] is None else base + ms["extra"]
-        tx = memogen.sender(code, curt, size, signer=ms["signer"] % 3)
-        vid = None
-        if code in AUTH_ZERO:
-            vid = memogen.STRANGER[0] if ms["signer"] == 3 else tx.vid
+        tx = memogen.sender(code, curt, size, signer=ms["signer"])
+        vid = tx.vid if code in AUTH_ZERO else None
+        superseded = ms["signer"] % 6 == 5       # signed with a key that is no longer the claimed signer's key
         try:
             gs = [bytes(g) for g in tx.rend(ms["text"], vid)]
         except Exception:        # noqa: BLE001 - sender side limits and failures are C20's business, not judged here
             continue
-        if vid is not None:
+        if vid is not None and not superseded:
             originals.add((ms["text"], vid))
             for g in gs:
                 signed.setdefault(vid, set()).add(body_of(g, curt))
@@ -184,8 +186,8 @@ def run_case(case):
             if mg is None:
                 continue
             forged = True
-            fs = memogen.SIGNERS[m[2][4] % 3] if m[2][4] < 3 else memogen.STRANGER
-            if memoing.Memoer.Sizes[CODES[m[2][1] % len(CODES)]].az:
+            fs = memogen.signer_at(m[2][4])
+            if memoing.Memoer.Sizes[CODES[m[2][1] % len(CODES)]].az and m[2][4] % 6 != 5:
                 signed.setdefault(fs[0], set()).add(bytes(m[2][3]))
         else:
             mg = mutate(g, m[2], curt)
@@ -237,6 +239,8 @@ def run_case(case):
         r.labels.append("mutant-past-code-lookup")
     if forged:
         r.labels.append("forged-gram-from-another-signer")
+    if any(ms["signer"] % 6 in (4, 5) for ms in case["memos"]) or any(m[2][0] == "forge" and m[2][4] % 6 in (4, 5) for m in case["muts"]):
+        r.labels.append("rotated-key-signer")
     if case["raw"]:
         r.labels.append("random-bytes")
     if rx.inbox:
@@ -249,7 +253,7 @@ def _strategy():
     text = st.one_of(st.text(ch, min_size=1, max_size=30), st.text("aé€\U0001f600", min_size=1, max_size=300))
     memo = st.fixed_dictionaries({"code": st.integers(0, 3), "curt": st.booleans(),
                                   "extra": st.one_of(st.integers(0, 12), st.integers(0, 200), st.none()),
-                                  "signer": st.integers(0, 3), "text": text})
+                                  "signer": st.sampled_from([0, 1, 2, 3, 4, 4, 5]), "text": text})
     b64ch = st.sampled_from("ABab09-_")
     mut = st.one_of(
         st.tuples(st.just("flip"), st.integers(0, 400), st.integers(1, 255)),
@@ -266,9 +270,9 @@ def _strategy():
         st.tuples(st.just("extend"), st.binary(min_size=1, max_size=4)),
         # a correctly signed gram made by another signer for the same memo id (any of the ten codes, any gram number)
         st.tuples(st.just("forge"), st.integers(0, 9), st.one_of(st.integers(0, 4), st.integers(0, 64 ** 4 - 1)),
-                  st.binary(min_size=1, max_size=12).map(lambda b: b"EVIL" + b), st.integers(0, 3)),
+                  st.binary(min_size=1, max_size=12).map(lambda b: b"EVIL" + b), st.integers(0, 5)),
         st.tuples(st.just("forge"), st.sampled_from([2, 3, 6, 7, 9]), st.integers(0, 3),
-                  st.just(b"EVIL"), st.integers(0, 3)),
+                  st.just(b"EVIL"), st.integers(0, 5)),
     ).map(list)
     muts = st.lists(st.tuples(st.booleans(), st.integers(0, 50), mut).map(list), max_size=6)
     raw = st.one_of(st.binary(max_size=40), st.binary(min_size=1, max_size=200).map(lambda b: b"b" + b),
@@ -286,9 +290,9 @@ def _forgery_strategy():
     # the victim is signer 1; forgers are the other known signers and the unknown one.  Codes that carry their own signer
     # id (auth zeroth grams, signed acks) are the ones a foreign signer can get verified, so they are weighted up.
     memo = st.fixed_dictionaries({"code": st.sampled_from([1, 3]), "curt": st.booleans(), "extra": st.integers(0, 30),
-                                  "signer": st.just(1), "text": text})
+                                  "signer": st.sampled_from([1, 1, 4]), "text": text})
     fg = st.tuples(st.just("forge"), st.sampled_from([9, 9, 9, 2, 6, 2, 6, 3, 7, 8, 0, 1, 4, 5]), st.integers(0, 3),
-                   st.binary(min_size=1, max_size=8).map(lambda b: b"EVIL" + b), st.sampled_from([0, 2, 3, 0, 2])).map(list)
+                   st.binary(min_size=1, max_size=8).map(lambda b: b"EVIL" + b), st.sampled_from([0, 2, 3, 0, 2, 5, 5])).map(list)
     muts = st.lists(st.tuples(st.booleans(), st.integers(0, 5), fg).map(list), min_size=1, max_size=3)
     return st.fixed_dictionaries({"authic": st.just(True), "memos": st.lists(memo, min_size=1, max_size=1), "muts": muts,
                                   "raw": st.just([]), "order": st.just([]),
